@@ -1,4 +1,5 @@
 from .core import *  # noqa
 from .core import (Sym, SymBool, NonFinite, SymEnv, ConcEnv, explore, run_concrete, Abort, EndPath, HarnessError,
                    Inconclusive, eq, le, lt, And, Or, Not, Implies, ite, is_nonfinite, same_term, Stats, lift, to_real)
+from .core import ConcForkEnv, explore_concrete
 from . import stubs, trace
